@@ -17,12 +17,16 @@ theorem goodT_setProc_same {s : State} (h : Inv s) {pid : Nat} {p p' : Proc} (hp
 theorem goodT_rawPush {s : State} (h : Inv s) (pid : Nat) {v : Val} (hv : ∀ i, v.count i = 0) :
     GoodT s (rawPush s pid v) := ⟨good_rawPush h pid hv, transit_rawPush s pid v⟩
 
-theorem good_handleSelf {s : State} (h : Inv s) (pid : Nat) : GoodT s (handleSelf s pid).1 := by
+theorem good_handleSelf {s : State} (h : Inv s) (pid : Nat) (sw : Option Nat) : GoodT s (handleSelf s pid sw).1 := by
   unfold handleSelf
   split
-  · exact GoodT.refl h
-  · have g := goodT_rawPush h pid (v := .proc pid (by assumption : Frame).fn) (by intro i; simp [Val.count])
+  · rename_i index
+    have g := goodT_rawPush h pid (v := .proc pid index) (by intro i; simp [Val.count])
     exact g.trans (goodT_bump g.inv pid)
+  · split
+    · exact GoodT.refl h
+    · have g := goodT_rawPush h pid (v := .proc pid (by assumption : Frame).fn) (by intro i; simp [Val.count])
+      exact g.trans (goodT_bump g.inv pid)
 
 theorem good_handleProcessRef {s : State} (h : Inv s) (pid a b : Nat) : GoodT s (handleProcessRef s pid a b).1 := by
   unfold handleProcessRef
